@@ -813,4 +813,33 @@ theorem one_cycle {nw : Network} {s : Schedule} (hcyc : CycInv nw s) {vt : Nat} 
   rw [h1] at h2
   exact Option.some.inj h2
 
+/-! ### search and pipeline -/
+
+theorem stepInv0_cycles {nw : Network} (hn : NetHyp nw) (hovf : C10Lim.OvfNode nw) : C11A.StepInv0 nw (InvC nw) where
+  step := fun s op r hinv hargs h =>
+    ⟨(C10Lim.stepInv_limits hn hovf).step s op r hinv.base hargs h,
+     C10_cycles_step nw hn s op r hinv.base.base.all.fu.invF.inv hinv.base.keys hinv.cycles hargs h⟩
+  fresh := fun _ _ _ hinv hpt => C11A.tour_ne_fresh hinv.base.base.all.fu.invF hpt
+  empty := ⟨(C10Lim.stepInv_limits hn hovf).empty, empty_cyc nw⟩
+
+/-- every candidate the search evaluates satisfies every clause of C10, rotation cycles included -/
+theorem C11_candidates_cycles (nw : Network) (hn : NetHyp nw) (hovf : C10Lim.OvfNode nw)
+    {limit threshold : Option Nat} {s : Schedule} {last : SwapInfo} {cands : List Swaps.Candidate}
+    (hinv : InvC nw s) (h : Swaps.neighborsOf nw limit threshold s last = .ok cands) :
+    ∀ c ∈ cands, InvC nw c.sched :=
+  C11A.neighbors_invF (stepInv0_cycles hn hovf) hinv h
+
+/-- **C05 / C10 at pipeline level**: if the transition optimiser — an oracle of the modelled pipeline —
+    returns, for a schedule that satisfies all invariants, transitions (distinct type keys) that are
+    consistent with the schedule's tours over the same vehicles, then the start schedule, the
+    local-search result and the returned schedule satisfy all invariants, rotation cycles included:
+    in the returned schedule every real vehicle is in exactly one rotation cycle of its type -/
+theorem C05_pipeline_cycles (nw : Network) (hn : NetHyp nw) (hovf : C10Lim.OvfNode nw) (o : Solve.Oracle)
+    (hopt : ∀ s, ((o.optimise s).map (·.1)).Nodup)
+    (hoptC : ∀ s, InvC nw s → CycInv nw (Schedule.setNextDayTransitions s (o.optimise s)))
+    (tr : Solve.Trace) (h : Solve.solve nw o = .ok tr) :
+    InvC nw tr.start ∧ InvC nw tr.afterSearch ∧ InvC nw tr.final :=
+  C11A.solve_inv0 (stepInv0_cycles hn hovf) o
+    (fun s hs => ⟨(C10Lim.stepInv_limits hn hovf).setT s _ (hopt s) hs.base, hoptC s hs⟩) tr h
+
 end RSSched.C10Cyc
